@@ -22,7 +22,7 @@ import os, time
 # Every scenario gets its own block of ports, taken from one running counter: a service started by `wire start` stays
 # bound for the life of the harness process, so no later scenario may come near its ports. The whole stage stays inside
 # 26000..32700, below the kernel's ephemeral range; the stage's region depends on the process and the time.
-SIZES = {"quick": {"c07": 6 * 12 + 2 * 12 + 2 * 14 + 2 * 8, "c08": 2 * 8, "c15": 32, "c12": 2 * 8}, "thorough": {"c07": 60 * 12 + 20 * 12 + 20 * 14 + 20 * 8, "c08": 30 * 8, "c15": 4 * 16, "c12": 6 * 8}}
+SIZES = {"quick": {"c07": 6 * 12 + 2 * 12 + 2 * 14 + 2 * 8, "c08": 2 * 8 + 12, "c15": 32, "c12": 2 * 8}, "thorough": {"c07": 60 * 12 + 20 * 12 + 20 * 14 + 20 * 8, "c08": 30 * 8 + 5 * 12, "c15": 4 * 16, "c12": 6 * 8}}
 _next = [26000, 32700]
 
 def region(tier, focus):
@@ -240,6 +240,37 @@ def gen_c08(g, lines, k):
     probe("after-largest-%d" % k)
     lines.append("wire end")
 
+def gen_c08_two(g, lines, k):
+    """two listener entries of one service receive, at the same moment, requests whose next hop is a host name nobody has
+    seen before (each loop asks the service's shared resolver): nothing may die, both listeners go on serving"""
+    base = take(12)
+    lip = "127.0.0.1"
+    P1, P2, BP, UP = base, base + 2, base + 4, base + 5
+    be, ua = "127.0.1.1:%d" % BP, "127.0.2.1:%d" % UP
+    y = "proxies:\n- name: svc.test\n  listens:\n"
+    for P in (P1, P2):
+        y += "  - address: %s\n    udp-port: %d\n    backends:\n    - udp://%s\n" % (lip, P, be)
+    lines.append("wire start %s" % hx(y))
+    lines.append("wire bind %s" % hx(be))
+    lines.append("wire bind %s" % hx(ua))
+    def probe(tag, P):
+        v = Via("UDP", "127.0.2.1", UP, [("branch", "z9hG4bKLIVE" + g.word(ALNUM.upper(), 6, 9)), ("rport", "")])
+        req = msg("OPTIONS sip:svc.test SIP/2.0", [("Via", v.text()), ("From", "<sip:p@ua.test>;tag=1"), ("To", "<sip:svc.test>"), ("Call-ID", "live2-" + tag), ("CSeq", "1 OPTIONS")])
+        lines.append("wire udp %s %s %s" % (hx(ua), hx("%s:%d" % (lip, P)), hx(req)))
+        lines.append("wire recv %s 1500 msg=%s # spec=C08 dest U %s # spec=C09 dest U %s" % (hx(be), hx(req), hx(be), hx(be)))
+    probe("a-%d" % k, P1); probe("b-%d" % k, P2)
+    for j in range(40 if k == 0 else 120):
+        v = Via("UDP", "127.0.2.1", UP, [("branch", "z9hG4bK" + g.word(ALNUM.upper(), 6, 9))])
+        name = "n%d-%d-%s.invalid" % (k, j, g.word("abcdefghijklmnopqrstuvwxyz", 4, 8))
+        req = msg("MESSAGE sip:x@far.example.org SIP/2.0", [("Via", v.text()), ("Route", "<sip:%s:5070;lr>" % name), ("From", "<sip:p@ua.test>;tag=1"), ("To", "<sip:x@far.example.org>"), ("Call-ID", "res-%d-%d" % (k, j)), ("CSeq", "1 MESSAGE")])
+        lines.append("wire udp %s %s %s" % (hx(ua), hx("%s:%d" % (lip, (P1, P2)[j % 2])), hx(req)))
+        g.count("wire_unknown_next_hop_names")
+    lines.append("wire flood %s %s %s %d %s" % (hx(ua), hx("%s:%d" % (lip, P1)), hx("%s:%d" % (lip, P2)), 6000 if k == 0 else 30000, "f%d%s" % (k, g.word("abcdefghijklmnopqrstuvwxyz", 4, 6))))
+    lines.append("wire sleep 600")
+    lines.append("wire drain %s" % hx(be))
+    probe("c-%d" % k, P1); probe("d-%d" % k, P2)
+    lines.append("wire end")
+
 def gen_c15(g, lines, k):
     """two services in one configuration file, started the way main() starts them (startProxies): the first one sets
     dialogTimeout: 1, the second one leaves it to the default (1200 s). A dialog pinned on the second service is still
@@ -329,6 +360,8 @@ def generate(seed, tier, focus="c07"):
         if focus == "c08":
             if k < (2 if tier == "quick" else 30):
                 gen_c08(g, lines, k)
+            if k < (1 if tier == "quick" else 5):
+                gen_c08_two(g, lines, k)
             continue
         if focus == "c07":
             gen_c07(g, lines, k)
